@@ -1,4 +1,5 @@
 import BU.Properties.C08
+import BU.Properties.C08_Gen
 import BU.Properties.C08_Key
 #print axioms C08.WFTree.one
 #print axioms C08.WFTree.two
@@ -10,4 +11,10 @@ import BU.Properties.C08_Key
 #print axioms C08.path_folds_to_root
 #print axioms C08.address_commits
 #print axioms C08.control_block_verifies
+#print axioms C08Gen.bytesLt_eq
+#print axioms C08Gen.gen_tagged_hash
+#print axioms C08Gen.tag_branch
+#print axioms C08Gen.tag_leaf
+#print axioms C08Gen.gen_tapbranch
+#print axioms C08Gen.gen_tapleaf
 #print axioms C08.control_block_verifies_for_key
